@@ -481,11 +481,83 @@ def check_schema(prog: Program, res: Result) -> None:
     res.floor("C19-schema", 60)
 
 
+MT = "sleap_nn.training.model_trainer:ModelTrainer"
+
+
+def check_chunk_state(prog: Program, res: Result) -> None:
+    """Chunk files (.npz) are written whenever the datasets are built with np_chunks=self.np_chunks true; train() deletes
+    them under `data_pipeline_fw == "torch_dataset_np_chunks"`.  So wherever self.np_chunks becomes true, the framework
+    attribute the deletion is keyed on has to say so too (or the deletion has to be keyed on self.np_chunks)."""
+    R = "C19-delete"
+    ci = prog.cls(MT)
+    sites = []
+    for fi in ci.methods.values():
+        for st in walk_function(fi.node):
+            if isinstance(st, ast.Assign) and norm(st.targets[0]) == "self.np_chunks":
+                sites.append((fi, st))
+    res.ob(R, len(sites) >= 2, ci.qualname, "self.np_chunks is set at construction and by the low-memory fallback", f"{len(sites)} assignments of self.np_chunks", "")
+    tr = ci.methods.get("train")
+    del_on_flag = any(isinstance(n, ast.If) and "self.np_chunks" in norm(n.test) and any(isinstance(c, ast.Call) and norm(c.func).endswith("rmtree") for c in ast.walk(n)) for n in walk_function(tr.node))
+    for fi, st in sites:
+        res.touch(fi)
+        v = st.value
+        if astq.const_value(v) is False:
+            continue
+        derived = "data_pipeline_fw" in norm(v)  # e.g. `True if "np_chunks" in self.data_pipeline_fw else False`
+        blk = getattr(st, "_parent", None)
+        body = [b for fld in ("body", "orelse") for b in getattr(blk, fld, []) if isinstance(getattr(blk, fld, None), list)] if blk is not None else []
+        sets_fw = any(isinstance(b, ast.Assign) and norm(b.targets[0]) == "self.data_pipeline_fw" and astq.const_value(b.value) == "torch_dataset_np_chunks" for b in body)
+        guards = [a for a in ancestors(st) if isinstance(a, ast.If)]
+        guarded = any("torch_dataset_np_chunks" in norm(g.test) and "==" in norm(g.test) for g in guards)
+        ok = derived or sets_fw or guarded or del_on_flag
+        res.ob(R, ok, fi.qualname, f"np_chunks on <=> framework recorded as torch_dataset_np_chunks: {short(st, 50)}",
+               f"`{short(st, 50)}` switches chunk caching on without recording it in self.data_pipeline_fw: train() deletes chunk files only under "
+               "`data_pipeline_fw == 'torch_dataset_np_chunks'`, so these chunks are never deleted although deletion was requested", f"{fi.module.relpath}:{st.lineno}")
+
+
+def check_model_config_alias(prog: Program, res: Result) -> None:
+    """The final training_config.yaml is ModelTrainer.config.  The Lightning module adjusts the configuration it was given
+    (e.g. in_channels for pre-trained weights) and stores it in the checkpoint; both are 'the configuration actually used'
+    only if the module holds the trainer's OBJECT, not a copy."""
+    R = "C19-final"
+    ci = prog.classes.get("sleap_nn.training.lightning_modules:TrainingModel")
+    if ci is None:
+        raise AnalysisError("TrainingModel vanished")
+    init = ci.methods.get("__init__")
+    res.touch(init)
+    sts = [s_ for s_ in walk_function(init.node) if isinstance(s_, ast.Assign) and norm(s_.targets[0]) == "self.config"]
+    writes = []
+    for c2 in [ci] + prog.subclasses(ci):
+        for m in c2.methods.values():
+            for s_ in walk_function(m.node):
+                tg = s_.targets if isinstance(s_, ast.Assign) else ([s_.target] if isinstance(s_, ast.AugAssign) else [])
+                for t in tg:
+                    if isinstance(t, (ast.Attribute, ast.Subscript)) and norm(t).startswith("self.config.") or (isinstance(t, ast.Subscript) and norm(t).startswith("self.config[")):
+                        writes.append(short(s_, 60))
+    # aliases of sub-configurations (self.model_config = self.config.model_config) and OmegaConf.update(...) on them
+    aliases = {"self.config"}
+    for s_ in walk_function(init.node):
+        if isinstance(s_, ast.Assign) and isinstance(s_.targets[0], ast.Attribute) and norm(s_.value).startswith("self.config."):
+            aliases.add(norm(s_.targets[0]))
+    for c2 in [ci] + prog.subclasses(ci):
+        for m in c2.methods.values():
+            for c_ in walk_function(m.node):
+                if isinstance(c_, ast.Call) and norm(c_.func).endswith("OmegaConf.update") and c_.args and any(norm(c_.args[0]) == a or norm(c_.args[0]).startswith(a + ".") or norm(c_.args[0]).startswith(a + "[") for a in aliases):
+                    writes.append(short(c_, 60))
+    prm = [p_ for p_ in init.pos_params if p_ == "config"]
+    ok = len(sts) == 1 and prm and norm(astq.expand_at(init.node, sts[0].value, sts[0])) == "config"
+    res.ob(R, ok or not writes, init.qualname, "the module keeps the trainer's configuration object (no copy)",
+           f"`{short(sts[0], 50) if sts else 'self.config'}` detaches the module's configuration from the trainer's while the module rewrites it ({writes[:1]}): the final "
+           "training_config.yaml no longer equals the configuration the model was built with", init.where, sample={"writes": writes[:3]})
+
+
 def check(prog: Program, res: Result) -> None:
     check_mask(prog, res)
     check_final(prog, res)
     check_initial(prog, res)
     check_schema(prog, res)
+    check_chunk_state(prog, res)
+    check_model_config_alias(prog, res)
     res.floor("C19-final", 3)
     res.assumptions += [
         "wandb's own files under save_dir are outside the analysis (the key reaches wandb only through wandb.login)",
@@ -495,6 +567,8 @@ def check(prog: Program, res: Result) -> None:
 
 T = "sleap_nn/training/model_trainer.py"
 VARIANTS = [
+    Variant("final-model-config-copied", "sleap_nn/training/lightning_modules.py", "        self.config = config\n", "        self.config = config.copy()\n", "C19-final"),
+    Variant("delete-fallback-not-recorded", T, "                self.data_pipeline_fw = \"torch_dataset_np_chunks\"\n", "", "C19-delete"),
     Variant("mask-removed", T, "        if self._wandb_api_key is not None:\n            self.config.trainer_config.wandb.api_key = \"\"\n", "", "C19-mask"),
     Variant("mask-only-when-wandb", T, "        if self._wandb_api_key is not None:\n            self.config.trainer_config.wandb.api_key = \"\"\n",
             "        if self.config.trainer_config.use_wandb:\n            self.config.trainer_config.wandb.api_key = \"\"\n", "C19-mask"),
